@@ -14,6 +14,10 @@ if [ -f $DIR/demo.cc ]; then
   g++ -std=c++14 -w -I /repo/au/code $DIR/demo.cc -o $WT/demo_orig >/dev/null 2>&1 && { timeout 120 $WT/demo_orig >/dev/null 2>&1; DEMO_ORIG=$?; } || DEMO_ORIG=compile-error
   g++ -std=c++14 -w -I $WT/au/code $DIR/demo.cc -o $WT/demo_patch >/dev/null 2>&1 && { timeout 120 $WT/demo_patch >/dev/null 2>&1; DEMO_PATCH=$?; } || DEMO_PATCH=compile-error
 fi
+if [ -f $DIR/demo.sh ]; then
+  (cd $DIR && timeout 600 bash $DIR/demo.sh /repo >/dev/null 2>&1); DEMO_ORIG=$?
+  (cd $DIR && timeout 600 bash $DIR/demo.sh $WT >/dev/null 2>&1); DEMO_PATCH=$?
+fi
 RES=""
 for C in $CHECKS; do
   OUT=$(cd /verif && AU_REPO=$WT timeout 3000 ./check $C --tier quick 2>&1); RC=$?
